@@ -245,6 +245,10 @@ class skyline_lu {
          * end
          */
         void factorize() {
+            // An empty system (e.g. the local block of an MPI process that
+            // owns no rows) has nothing to factorize.
+            if (n == 0) return;
+
             precondition(!math::is_zero(D[0]), "Zero diagonal in skyline_lu");
             D[0] = math::inverse(D[0]);
 
